@@ -353,6 +353,12 @@ func c11Body(s *simkit.Sim, rc *simkit.RunCtx) {
 				ackedBefore = append(ackedBefore, o.Index)
 			}
 		}
+		// bits seen in versions that had been served completely before this request began: a version made later has them
+		// (two overlapping requests may be answered in the opposite order of their making)
+		var servedBefore []int
+		for i := range seenServed[c.List] {
+			servedBefore = append(servedBefore, i)
+		}
 		mu.Unlock()
 		req.URL.Host = "nodeb.sim"
 		resp := iss.Serve(req)
@@ -381,7 +387,7 @@ func c11Body(s *simkit.Sim, rc *simkit.RunCtx) {
 		if seenServed[id] == nil {
 			seenServed[id] = map[int]bool{}
 		}
-		for i := range seenServed[id] {
+		for _, i := range servedBefore {
 			if !bitSet(bits, i) {
 				mu.Unlock()
 				s.Fail("C11.served", "bit-cleared", "served list %s no longer has bit %d set, which an earlier served version had", c.List, i)
